@@ -37,6 +37,7 @@ var vNet struct {
 	recvCall int
 	gotFlags int
 	closed   []int
+	failType int // a Send whose header type equals this fails in sendto (0: none)
 }
 
 var vNetMu sync.Mutex
@@ -44,6 +45,9 @@ var vNetMu sync.Mutex
 func vSysSendto(fd int, p []byte, flags int, to syscall.Sockaddr) error {
 	// the kernel copies the datagram at some point during the call: a scheduling point first
 	vYield()
+	if vNet.failType != 0 && len(p) >= 6 && int(p[4])|int(p[5])<<8 == vNet.failType {
+		return syscall.EAGAIN // nothing reaches the wire
+	}
 	d := vDatagram{fd: fd, data: append([]byte(nil), p...), flags: flags, to: to}
 	vNetMu.Lock()
 	vNet.sent = append(vNet.sent, d)
@@ -117,26 +121,43 @@ func VH_NetlinkSend() {
 // VH_NetlinkSendConcurrent: T goroutines x 2 sends on one client.
 func VH_NetlinkSendConcurrent() {
 	vNet.sent = nil
+	vNet.failType = 0
 	c := &NetlinkClient{fd: 7, pid: 99, seq: vU32("seq0")}
 	threads := vParam("threads", 2)
-	res := make([][]uint32, threads)
+	if vParam("failures", 0) != 0 {
+		// one of the sends (or none) is refused by sendto
+		if f := vChoose("fail", 2*threads+1); f > 0 {
+			vNet.failType = 1000 + f - 1
+		}
+	}
+	type sendRes struct {
+		seq uint32
+		ok  bool
+	}
+	res := make([][]sendRes, threads)
 	for t := 0; t < threads; t++ {
 		t := t
 		vGo(func() {
 			for i := 0; i < 2; i++ {
-				seq, _ := c.Send(syscall.NetlinkMessage{Header: syscall.NlMsghdr{Type: 1000}})
-				res[t] = append(res[t], seq)
+				seq, err := c.Send(syscall.NetlinkMessage{Header: syscall.NlMsghdr{Type: uint16(1000 + 2*t + i)}})
+				res[t] = append(res[t], sendRes{seq, err == nil})
 			}
 		})
 	}
 	vJoin()
-	// every returned sequence number is on the wire exactly once
+	ft := vNet.failType
+	vNet.failType = 0
+	// every sequence number returned by a successful Send is on the wire exactly once
 	for t := 0; t < threads; t++ {
-		for _, seq := range res[t] {
+		for i, r := range res[t] {
+			vAssert(r.ok == (1000+2*t+i != ft), "C18/send-error-not-reported")
+			if !r.ok {
+				continue
+			}
 			var n uint64
 			for _, d := range vNet.sent {
 				if len(d.data) >= 16 {
-					n += vIf(vGet32(d.data[8:]) == seq, 1, 0) // counted without branching
+					n += vIf(vGet32(d.data[8:]) == r.seq, 1, 0) // counted without branching
 				}
 			}
 			vAssert(n == 1, "C18/concurrent-returned-sequence-not-on-the-wire-once")
@@ -145,11 +166,15 @@ func VH_NetlinkSendConcurrent() {
 	var all []uint32
 	for t := 0; t < threads; t++ {
 		vAssert(len(res[t]) == 2, "C18/concurrent-send-lost")
-		if len(res[t]) == 2 {
+		if len(res[t]) == 2 && res[t][0].ok && res[t][1].ok {
 			// increasing per sender (wrap-around aside: distance below 2^31)
-			vAssert(res[t][1]-res[t][0] < 1<<31 && res[t][1] != res[t][0], "C18/concurrent-not-increasing-per-sender")
+			vAssert(res[t][1].seq-res[t][0].seq < 1<<31 && res[t][1].seq != res[t][0].seq, "C18/concurrent-not-increasing-per-sender")
 		}
-		all = append(all, res[t]...)
+		for _, r := range res[t] {
+			if r.ok {
+				all = append(all, r.seq)
+			}
+		}
 	}
 	for i := range all {
 		for j := i + 1; j < len(all); j++ {
